@@ -382,8 +382,9 @@ def wq_scenarios(ctx, rnd):
     # samples of four elements: every (xs, ws) pair in the thorough tier, a seeded subset in quick
     all4 = [(xs, ws) for xs in itertools.product(range(4), repeat=4) for ws in weight_vectors(4, 3)]
     pick = all4 if not ctx.quick else rnd.sample(all4, 1000)
+    calls4 = STD_WQ_CALLS if ctx.quick else STD_WQ_CALLS[:A8 + 1] + [[5, A8, 2, False]]
     for xs, ws in pick:
-        out.append(dict(kind="wq", xs=list(xs), ws=list(ws), calls=STD_WQ_CALLS))
+        out.append(dict(kind="wq", xs=list(xs), ws=list(ws), calls=calls4))
     n_exh = len(out)
     # seeded random: longer samples, negative values, larger weights, other alpha grids
     for _ in range(800 if ctx.quick else 10000):
@@ -493,10 +494,11 @@ def gm_scenarios(ctx, rnd):
         for _c in range(rnd.randint(1, 2)):
             npts = rnd.randint(1, 4)
             pts = [[base[j] + rnd.randint(-reach // 2, reach // 2) * sc["sds"][j] for j in range(d)] for _p in range(npts)]
-            if rnd.random() < 0.3:       # a point equidistant from all components (closed-form log density)
-                pts[0] = list(sc["means"][0])
-                if all(m == sc["means"][0] for m in sc["means"]) is False and rnd.random() < 0.5:
-                    sc["means"] = [list(sc["means"][0]) for _i in range(K)]
+            if _c == 0 and rnd.random() < 0.3:
+                # all components at the same Mahalanobis distance from the first point (mirror images of one
+                # offset): the mixture density there is that of ONE normal - closed-form log density
+                off = [rnd.randint(0, 2) * sc["sds"][j] for j in range(d)]
+                sc["means"] = [[pts[0][j] + rnd.choice([-1, 1]) * off[j] for j in range(d)] for _i in range(K)]
             if d == 1:
                 xform = "scalar" if (npts == 1 and rnd.random() < 0.5) else rnd.choice(["1d", "2d"])
             else:
